@@ -274,19 +274,19 @@ type MTask struct {
 }
 
 type MultiCase struct {
-	Engine   string   `json:"engine"`
-	Race     bool     `json:"race"`
-	Seed     uint64   `json:"seed"`
-	Strategy int      `json:"strategy"`
-	PNum     int      `json:"p_num"`
-	PDen     int      `json:"p_den"`
-	Template string   `json:"template"`
-	Scripts  []string `json:"scripts"`
-	Tasks    []MTask  `json:"tasks"`
-	Procs    int      `json:"gomaxprocs"`
-	TplChan  bool     `json:"template_chan,omitempty"` // the template has an Interrupt channel when it is copied
-	TplNoSeed bool    `json:"template_no_seed,omitempty"` // the template uses the default random source and calls Math.random() before it is copied
-	ByteSrc  bool     `json:"byte_src,omitempty"`      // shared Scripts/Programs are compiled from a []byte the caller then reuses
+	Engine    string   `json:"engine"`
+	Race      bool     `json:"race"`
+	Seed      uint64   `json:"seed"`
+	Strategy  int      `json:"strategy"`
+	PNum      int      `json:"p_num"`
+	PDen      int      `json:"p_den"`
+	Template  string   `json:"template"`
+	Scripts   []string `json:"scripts"`
+	Tasks     []MTask  `json:"tasks"`
+	Procs     int      `json:"gomaxprocs"`
+	TplChan   bool     `json:"template_chan,omitempty"`    // the template has an Interrupt channel when it is copied
+	TplNoSeed bool     `json:"template_no_seed,omitempty"` // the template uses the default random source and calls Math.random() before it is copied
+	ByteSrc   bool     `json:"byte_src,omitempty"`         // shared Scripts/Programs are compiled from a []byte the caller then reuses
 	// Batch, when present, records the process history in which the violation
 	// was observed (race detection can depend on what the process executed
 	// before); replay falls back to re-running that batch prefix.
@@ -324,11 +324,11 @@ func (b *bridged) Sum(x, y int) int { return x + y + b.Count }
 // per-task harness state; touched only by the goroutine running the task
 // (and by the coordinator before the fork / after the join).
 type mtask struct {
-	id     int
-	vm     *otto.Otto
-	trace  []string
-	nextID int
-	rnd    Rng
+	id                 int
+	vm                 *otto.Otto
+	trace              []string
+	nextID             int
+	rnd                Rng
 	abortAt, progSteps int
 	irqAt              []int
 }
@@ -1051,6 +1051,8 @@ func genBuiltinCall(t *rapid.T) string {
 // fragments that exercise interpreter paths known to be sensitive to shared
 // state (literals, error positions, arguments objects, date parsing, ...)
 var jsFragments = []string{
+	"var jp=JSON.parse('{\"b\":1,\"a\":{\"z\":1,\"y\":2,\"x\":3,\"w\":4},\"c\":[{\"q\":1,\"p\":2,\"o\":3}],\"d\":4,\"e\":5}');rec(Object.keys(jp).join()+Object.keys(jp.a).join()+Object.keys(jp.c[0]).join()+JSON.stringify(jp))",
+	"rec(JSON.stringify(JSON.parse('{\"k3\":1,\"k1\":2,\"k2\":{\"n\":null,\"m\":true}}',function(k,v){rec(k);return v})))",
 	"rec(/a(b)?c/g.exec('xabcabc')+'|'+'aXbX'.replace(/X/g,'-'))",
 	"rec(Date.parse('2001-02-03T04:05:06Z')+','+Date.parse('Sat, 03 Feb 2001 04:05:06 GMT')+','+Date.parse('2001/02/03 04:05'))",
 	"rec(encodeURIComponent('éè€\U0001d11e')+encodeURI('a b/ü')+decodeURIComponent('%C3%A9'))",
